@@ -39,6 +39,8 @@ type lifeObs struct {
 	UsersAtStart   int
 	QuitWritten    bool
 	SockClosed     bool // the client called Close() on its socket
+	PingOff        bool // the client runs with keep-alive pings disabled (pingLoop returned nil at once)
+	ErrWritten     bool // the peer's write of the ERROR line returned without error: on the synchronous pipe the client has READ it
 }
 
 // closeRecorder records whether the client closed its own end (when the PEER closes first, the peer's EOF says
@@ -60,10 +62,15 @@ type lifeClient struct {
 	fire chan string // signals from handlers to the scenario ("line10", "block", "queued")
 }
 
-func newLifeClient() *lifeClient {
+func newLifeClient(pingOff ...bool) *lifeClient {
 	lc := &lifeClient{fire: make(chan string, 64)}
-	lc.c = girc.New(girc.Config{Server: "irc.example.org", Port: 6667, Nick: "me", User: "me", Name: "me", AllowFlood: true,
-		RecoverFunc: func(c *girc.Client, e *girc.HandlerError) {}})
+	cfg := girc.Config{Server: "irc.example.org", Port: 6667, Nick: "me", User: "me", Name: "me", AllowFlood: true,
+		RecoverFunc: func(c *girc.Client, e *girc.HandlerError) {}}
+	if len(pingOff) > 0 && pingOff[0] {
+		// keep-alive pings disabled: pingLoop returns nil at once, which must not end the connection
+		cfg.PingDelay = -1
+	}
+	lc.c = girc.New(cfg)
 	lc.c.Handlers.Add(girc.ALL_EVENTS, func(c *girc.Client, e girc.Event) {
 		lc.mu.Lock()
 		o := lc.cur
@@ -255,9 +262,10 @@ func (lc *lifeClient) runLifeConn(idx int, term, place, peer string, r *RNG) *li
 				// more lines follow the ERROR in the same segment (never handled: execLoop stops at the ERROR); a
 				// later connection of this client must not see them
 				srv.SetWriteDeadline(time.Now().Add(2 * time.Second))
-				srv.Write([]byte("ERROR :Closing Link: " + tag + "\r\n:me!u@h JOIN #stale" + tag + "\r\n:x!u@h PRIVMSG me :" + tag + " after the error\r\n:x!u@h NOTICE me :" + tag + " after the error\r\n"))
+				_, werr := srv.Write([]byte("ERROR :Closing Link: " + tag + "\r\n:me!u@h JOIN #stale" + tag + "\r\n:x!u@h PRIVMSG me :" + tag + " after the error\r\n:x!u@h NOTICE me :" + tag + " after the error\r\n"))
+				o.ErrWritten = werr == nil
 			} else {
-				send("ERROR :Closing Link: " + tag)
+				o.ErrWritten = send("ERROR :Closing Link: " + tag)
 			}
 			if r.Bool() {
 				time.Sleep(time.Duration(r.Intn(3)) * time.Millisecond)
@@ -462,6 +470,12 @@ func judgeLife(c *Ctx, hin map[string]string, o *lifeObs, prev *lifeObs) {
 			if o.Ret == "nil" || strings.HasPrefix(o.Ret, "errevent:") {
 				viol("error_lost", "the ERROR never reached a handler, yet Connect did not report an I/O error")
 			}
+			// While a foreground handler is busy the client has nothing to write, so no write error can pre-empt the
+			// read side: the peer's (synchronous) write of the ERROR completed, i.e. readLoop took it off the wire
+			// and queued it before it could see the close. It must be delivered and reported.
+			if o.Place == "handler" && o.ErrWritten {
+				viol("error_dropped", "the client had read the server's ERROR (and had nothing to write), yet no handler saw it and Connect returned "+o.Ret)
+			}
 			if len(got) > len(want) || strings.Join(got, "\n") != strings.Join(want[:len(got)], "\n") {
 				viol("events_order", "what handlers saw is not a prefix of what the server sent")
 			}
@@ -551,6 +565,12 @@ func modelReplay(c *Ctx, hin map[string]string, o *lifeObs) {
 		n++
 	}
 	execRunning := !errDelivered
+	pingExit := "pn" // pingLoop leaves through the cancelled context …
+	if o.PingOff {
+		// … unless pings are disabled: then it returned nil at the very start, and that ended nothing
+		pingExit = "pd"
+		toks = append([]string{"cfg:pingoff"}, toks...)
+	}
 	wind := func(sendRunning bool) {
 		toks = append(toks, "rc")
 		if execRunning {
@@ -559,7 +579,7 @@ func modelReplay(c *Ctx, hin map[string]string, o *lifeObs) {
 		if sendRunning {
 			toks = append(toks, "sc")
 		}
-		toks = append(toks, "pn", "mw")
+		toks = append(toks, pingExit, "mw")
 	}
 	want := ""
 	switch {
@@ -583,7 +603,7 @@ func modelReplay(c *Ctx, hin map[string]string, o *lifeObs) {
 		if execRunning {
 			toks = append(toks, "ef")
 		}
-		toks = append(toks, "sc", "pn", "mw", "mt", "md", "mf")
+		toks = append(toks, "sc", pingExit, "mw", "mt", "md", "mf")
 		want = "res=io emitted=D"
 	}
 	resp := c.L.Call("life.run", strings.Join(toks, ","))
@@ -651,10 +671,11 @@ func init() {
 		terms := strings.Split(in["terms"], ",")
 		places := strings.Split(in["places"], ",")
 		peers := strings.Split(in["peers"], ",")
-		lc := newLifeClient()
+		lc := newLifeClient(in["pingoff"] == "1")
 		var prev *lifeObs
 		for i := range terms {
 			o := lc.runLifeConn(i, terms[i], places[i], peers[i], c.Rng)
+			o.PingOff = in["pingoff"] == "1"
 			judgeLife(c, hin, o, prev)
 			if o.Ret != "timeout" {
 				modelReplay(c, hin, o)
@@ -693,6 +714,17 @@ func runC07(c *Ctx) {
 		c.run("life", map[string]string{"terms": "eof," + t2 + ",close", "places": "midwrite,burst,burst", "peers": "passive,passive,passive"})
 		n++
 	}
+	// keep-alive pings disabled (Config.PingDelay < 0): one loop of the group returns nil at once; the connection
+	// must live until it is ended by one of the four causes all the same
+	for _, t := range terms {
+		c.run("life", map[string]string{"pingoff": "1", "terms": t + "," + terms[c.Rng.Intn(4)] + ",close", "places": places[c.Rng.Intn(4)] + ",handler,burst", "peers": "passive,passive,passive"})
+		n++
+	}
+	// several events and the ERROR queued behind a busy foreground handler, more than once per run
+	for i := 0; i < 4; i++ {
+		c.run("life", map[string]string{"terms": "error,error,error", "places": "handler,handler,handler", "peers": "passive,passive,passive"})
+		n++
+	}
 	for i := 0; i < 6*(c.Scale-1); i++ {
 		var ts, ps, pes []string
 		for k := 0; k < 3; k++ {
@@ -700,7 +732,11 @@ func runC07(c *Ctx) {
 			ps = append(ps, places[c.Rng.Intn(4)])
 			pes = append(pes, peers[c.Rng.Intn(3)])
 		}
-		c.run("life", map[string]string{"terms": strings.Join(ts, ","), "places": strings.Join(ps, ","), "peers": strings.Join(pes, ",")})
+		in := map[string]string{"terms": strings.Join(ts, ","), "places": strings.Join(ps, ","), "peers": strings.Join(pes, ",")}
+		if c.Rng.Chance(20) {
+			in["pingoff"] = "1"
+		}
+		c.run("life", in)
 		n++
 	}
 	c.R.Traces = n * 3
